@@ -107,14 +107,14 @@ def replay_failure(prop, plan, spec, cfg, concrete, times=3):
     for _ in range(times):
         s = SUT.Sut(b, env=plan.get('env'))
         try:
-            ex = engine.Exec(spec, static, s)
+            ex = engine.Exec(spec, static, s, auto_probe=plan['cp'].get('auto_probe', False))
             try:
                 per_op = ex.replay(concrete)
             except SUT.SutCrash as e:
                 out.append('SUT crashed rc=%s' % e.rc)
                 sig = 'crash'
                 continue
-            ctx = oracles.Ctx(spec, static, cfg, concrete, per_op, dict(prop=prop, tier='replay'))
+            ctx = oracles.Ctx(spec, static, cfg, concrete, per_op, dict(prop=prop, tier='replay', idmap=s.idmap))
             try:
                 getattr(oracles, plan['oracle'])(ctx)
                 out.append(None)
